@@ -1,6 +1,6 @@
 /*UNIT
 {"props": ["C08"], "src": ["lib/loop.c", "lib/loop_job.c"], "mode": "plain", "kind": "bounded",
- "bound": "one job (priority LOW, MED or HIGH by variant: a symbolic level index exhausts memory) that adds itself again from inside its callback at most once, and at most one bystander job added before it; two loop iterations (job source poll + dispatch round of the job's level), loops unwound with unwinding assertions",
+ "bound": "three concrete scenarios (variants): a job at MED alone re-adding itself once; a job at HIGH behind another job, re-adding itself once; a job at LOW behind another job, not re-adding (symbolic queues or a symbolic level index exhaust memory); two loop iterations (job source poll + dispatch round of the job's level), loops unwound with unwinding assertions",
  "functions": ["qb_loop_job_add (from outside the loop and from inside a job callback)", "get_more_jobs", "qb_loop_run_level", "job_dispatch"],
  "restrict_fp": ["qb_loop_run_level.function_pointer_call.1/job_dispatch", "job_dispatch.function_pointer_call.1/verif_job_fn"],
  "unwindset": ["qb_loop_run_level.0:4", "get_more_jobs.0:4", "qb_list_length.0:4"],
@@ -63,7 +63,7 @@ static void verif_job_fn(void *data)
 void harness(void)
 {
 	int32_t nd_p = V_P;   /* case split by variant */
-	uint8_t nd_bystander = V_BYSTANDER, nd_readd = V_READD;   /* case split by variant: symbolic queues exhaust memory here */
+	uint8_t nd_bystander = V_BYSTANDER, nd_readd = V_READD;   /* case split by variant: with symbolic queues CBMC runs out of memory (measured) */
 	verif_alloc_calls = 0; verif_alloc_never_fails = 1; v_nfreed = 0;
 	v_calls = 0; v_adds = 0; v_by_calls = 0; v_by_before = 0; v_readd_rc = 1;
 	vl = malloc(sizeof(*vl));
